@@ -134,8 +134,10 @@ def run(prop, tier, seed):
     results["asan"] = (cases,) + utilchan.run("asan", cases, wd, "asan", jobs=4, case_timeout=2.0)
     # natively an out-of-bounds write corrupts the heap of the replay process itself and nothing stops it: one process
     # per sequence, so that a crash is attributed to the sequence that caused it
-    # (quick tier: a seed-chosen third of them; ASan above has run all of them with real addresses already)
-    nat = cases if not quick else sorted(rnd.sample(cases, min(len(cases), max(200, len(cases) // 3))), key=lambda c: c["id"])
+    # (a seed-chosen part of them: a third in the quick tier, at most 20000 in the thorough tier; ASan above has run all of
+    # them with real addresses already)
+    nnat = max(200, len(cases) // 3) if quick else 20000
+    nat = cases if len(cases) <= nnat else sorted(rnd.sample(cases, nnat), key=lambda c: c["id"])
     results["native"] = (nat,) + utilchan.run("native", nat, wd, "native", jobs=4, case_timeout=5.0, isolate=True)
 
     def predicted_ub(c):
@@ -201,7 +203,7 @@ def run(prop, tier, seed):
         "rule": "allocation sequences = all sequences of (size, align) requests up to the configured length over %d types and "
                 "%d initial capacities enumerated by TLC (exhaustive part: %d), plus seed-%d random sequences of length 6 (%d); "
                 "distinct = distinct (capacity, sequence); non-trivial = at least two different (size, align) types; each is "
-                "replayed under ASan, natively in its own process (quick tier: a third of them), a seed-chosen sample under Miri; all observations are judged "
+                "replayed under ASan, natively in its own process (quick tier: a third of them, thorough: at most 20000), a seed-chosen sample under Miri; all observations are judged "
                 "by TLC (C38val.tla)" % (len(sizes), len({c["cap"] for c in cases}), len(ex), seed, len(sim)),
         "sequences": len(cases), "exhaustive_part": len(ex), "random_part": len(sim),
         "requests_by_type": dict(sizes),
